@@ -706,6 +706,11 @@ type workerPool struct {
 }
 
 func newWorkerPool(prog *ssa.Program, pkg *ssa.Package, n int, want map[string]bool, setup func(i *interpreter)) (*workerPool, error) {
+	w2 := map[string]bool{pkg.Pkg.Path(): true} // the harness's package is always initialised
+	for k, v := range want {
+		w2[k] = v
+	}
+	want = w2
 	p := &workerPool{prog: prog, pkg: pkg, want: want, setup: setup}
 	if n <= 0 {
 		n = 1
